@@ -147,9 +147,9 @@ def prove(prop, gen_modules, dyn_files, static_deps=()):
     if bad:
         res.ok = False
         res.failed.append(('forbidden-construct', '\n'.join(bad)))
+    res.obligations = sum(count_lemmas(f) for f in files)
     for f in files:
         n = count_lemmas(f)
-        res.obligations += n
         if any(x[0].startswith('translator') for x in res.failed) and not f.endswith('.v'):
             continue
         rc, out = sh(['timeout', '300', 'coqc', '-Q', COQ, 'Pyctr', '-Q', bdir, 'Dyn', f], cwd=bdir, timeout=320)
